@@ -13,6 +13,7 @@ PROP = {
              "patterns match the request URL or a matching pattern is declared for >=2 methods; distinct = distinct canonical JSON of "
              "(declarations, request)"),
     "assumptions": [
+        "declared and requested methods include other spellings (get, Post, post): methods are compared as written, so they are other methods - a policy declared for GET is not applied to a get request, one declared for get is",
         "one generated request in twelve carries an absolute URL inside its path (shop.com/out/https://partner.io/orders/77), built from another declaration of the set; the empty segment behind the scheme is read both ways ({name} stands for it, as the engine implements it, or does not): either outcome is accepted, nothing else is",
         "the gateway's log level (LOG_LEVEL: off / error / info / debug / trace, output discarded) is a generated part of every case of TestPolicyTreeRandom: it must not change any answer",
         "unit TestDispatchedDiagnosisScope: the scope the dispatcher hands to the plugins is observed through the metrics-collector diagnosis (runner.RunTask with the real plugins and the file exporter): one exported record per enabled diagnosis of the endpoint the tree selects, whose method and normalized_url must be those of the tree's own look-up (differential; the look-up itself is judged by the other units); the scope handed to remedies is not observable through any remedy's output and is not judged",
